@@ -63,11 +63,112 @@ fn guard_ops_after_heap_drop() {
     drop(guard);
 }
 
+// Guard::guard on a LIVE heap: the object becomes a root iff its slot is not pooled (a stale handle to a
+// reclaimed slot must not become a latent root that adopts the slot's next tenant).  The Space is real but
+// empty; the box is a separately allocated live GcBox whose `pooled` flag is symbolic.
+#[cfg_attr(kani, kani::proof)]
+#[cfg_attr(kani, kani::unwind(4))]
+fn guard_live_heap_respects_pooled() {
+    let space: Rc<RefCell<Space<Obj>>> = Rc::new(RefCell::new(Space::new()));
+    let guard: Guard<Obj> = Guard::new(Rc::downgrade(&space), Rc::new(GuardInner::new()));
+    let boxed = Box::new(GcBox::new(kani::any(), Obj { v: kani::any() }));
+    let pooled: bool = kani::any();
+    boxed.pooled.set(pooled);
+    boxed.ref_count.set(1);
+    let raw = Box::into_raw(boxed);
+    let ptr = match NonNull::new(raw) {
+        Some(p) => p,
+        None => NonNull::dangling(),
+    };
+    let obj: Gc<Obj> = Gc { ptr, space: Weak::new() };
+    guard.guard(obj);
+    let n = guard.len();
+    assert!(n == if pooled { 0 } else { 1 }, "OBL gc_handles/Guard::guard/ensures#live_heap_roots_only_unpooled_objects");
+    if !pooled {
+        assert!(guard.inner.roots.borrow()[0] == ptr, "OBL gc_handles/Guard::guard/ensures#live_heap_root_is_the_object");
+    }
+    kani::cover!(pooled, "COVER guarding a pooled (stale) object");
+    kani::cover!(!pooled, "COVER guarding a live object");
+    // the drop glue of a live Space is beyond CBMC here (out of memory): leak instead of dropping
+    core::mem::forget(guard);
+    core::mem::forget(space);
+}
+
+// (Gc::clone / Gc::drop on a LIVE space - count +1 / -1, last handle resets and pools the slot once - were
+// tried with the same construction and dropped: CBMC runs out of memory on the Rc<RefCell<Space>> drop glue
+// that every upgrade() of a live Weak<Space> drags in.)
+
+// Guard::unguard / len / clear on the root list (a multiset: the VM guards the same object several times
+// and expects one unguard to remove exactly one occurrence).  The list never dereferences its entries, so
+// the entries are pointers to freed boxes.  BOUNDED: one harness per root-list length N.
+fn count(roots: &[NonNull<GcBox<Obj>>], p: NonNull<GcBox<Obj>>) -> usize {
+    let mut n = 0;
+    let mut i = 0;
+    while i < roots.len() {
+        if roots[i] == p {
+            n += 1;
+        }
+        i += 1;
+    }
+    n
+}
+
+fn unguard_contract<const N: usize>() {
+    let cands = [freed_box(), freed_box(), freed_box()];
+    let guard: Guard<Obj> = Guard::new(Weak::new(), Rc::new(GuardInner::new()));
+    let picks: [u8; N] = kani::any();
+    let mut i = 0;
+    while i < N {
+        kani::assume(picks[i] < 3);
+        guard.inner.roots.borrow_mut().push(cands[picks[i] as usize]);
+        i += 1;
+    }
+    let before: Vec<NonNull<GcBox<Obj>>> = guard.inner.roots.borrow().clone();
+    let which: u8 = kani::any();
+    kani::assume(which < 3);
+    let target = cands[which as usize];
+    let obj: Gc<Obj> = Gc { ptr: target, space: Weak::new() };
+    assert!(guard.len() == N, "OBL gc_handles/Guard::len/ensures#number_of_roots");
+    let r = guard.unguard(&obj);
+    let after: Vec<NonNull<GcBox<Obj>>> = guard.inner.roots.borrow().clone();
+    let had = count(&before, target);
+    assert!(r == (had > 0), "OBL gc_handles/Guard::unguard/ensures#true_iff_was_guarded");
+    assert!(count(&after, target) == if had > 0 { had - 1 } else { 0 }, "OBL gc_handles/Guard::unguard/ensures#removes_exactly_one_occurrence");
+    let other: u8 = kani::any();
+    kani::assume(other < 3 && other != which);
+    assert!(count(&after, cands[other as usize]) == count(&before, cands[other as usize]), "OBL gc_handles/Guard::unguard/ensures#other_roots_kept");
+    assert!(after.len() + (if r { 1 } else { 0 }) == N, "OBL gc_handles/Guard::unguard/ensures#length");
+    kani::cover!(N < 2 || had == 2, "COVER same object guarded twice");
+    guard.clear();
+    assert!(guard.is_empty() && guard.len() == 0, "OBL gc_handles/Guard::clear/ensures#no_roots_left");
+    drop(obj);
+    drop(guard);
+}
+
+macro_rules! unguard_harness {
+    ($name:ident, $n:expr) => {
+        #[cfg_attr(kani, kani::proof)]
+        #[cfg_attr(kani, kani::unwind(6))]
+        fn $name() {
+            unguard_contract::<$n>();
+        }
+    };
+}
+unguard_harness!(guard_unguard_roots0, 0);
+unguard_harness!(guard_unguard_roots1, 1);
+unguard_harness!(guard_unguard_roots2, 2);
+unguard_harness!(guard_unguard_roots3, 3);
+
 #[cfg(all(test, not(kani)))]
 #[test]
 fn verif_replay_gc_handles() {
     kani::replay_main(&[
         ("handle_clone_after_heap_drop", handle_clone_after_heap_drop as fn()),
         ("guard_ops_after_heap_drop", guard_ops_after_heap_drop as fn()),
+        ("guard_live_heap_respects_pooled", guard_live_heap_respects_pooled as fn()),
+        ("guard_unguard_roots0", guard_unguard_roots0 as fn()),
+        ("guard_unguard_roots1", guard_unguard_roots1 as fn()),
+        ("guard_unguard_roots2", guard_unguard_roots2 as fn()),
+        ("guard_unguard_roots3", guard_unguard_roots3 as fn()),
     ]);
 }
